@@ -26,7 +26,7 @@ def main():
     if '--tier' in args:
         i = args.index('--tier'); tier = args[i + 1]; del args[i:i + 2]
     claimed = {c['property_id'] for c in json.load(open(f'{HOME}/MANIFEST.json'))['checks']}
-    ids = args or sorted(d for d in os.listdir(f'{HOME}/seeded') if os.path.isdir(f'{HOME}/seeded/{d}'))
+    ids = args or sorted(d for d in os.listdir(f'{HOME}/seeded') if os.path.isfile(f'{HOME}/seeded/{d}/meta.json'))
     ids = [i for i in ids if json.load(open(f'{HOME}/seeded/{i}/meta.json'))['property'] in claimed]
     path = f'{HOME}/seeded/RESULTS.json'
     results = json.load(open(path)) if os.path.exists(path) else {}
